@@ -310,6 +310,20 @@ def whole_program_tie(ck, pool, n):
             items.append(('directed/' + name, xparse.parse(src.encode('latin-1')), inps))
         except Exception:
             pass
+    # directed: errors of ConstProp (unknown symbol, invalid system call number), overwritten symbols, calls through vals
+    for k, src in enumerate([
+            'proc main() is 4294967295(1)\n', 'proc main() is 5(1)\n', 'proc main() is 3(1)\n', 'val e = 7;\nproc main() is e(1)\n',
+            'proc main() is 0(nosuch + 1)\n', 'proc main() is nosuch(1)\n', 'val x = 1;\nvar x;\nproc main() is { x := 2; 0(x + 1) }\n',
+            'var x;\nval x = 4;\nproc main() is 0(x + 1)\n', 'val x = 1;\nval x = 2;\nproc main() is 0(x + x)\n',
+            'val put = 1;\nval exit = 0;\nproc main() is { put(65 + (1 + 1), 0); exit(put + exit) }\n',
+            'val a = 3;\nproc f(val a) is 0(a + 1)\nproc main() is f(a + 1)\n', 'val a = 3;\nproc main() is var a; { a := 1; 0(a + 1) }\n',
+            'val n = 2 + 3;\narray t[n + n];\nproc main() is { t[n - 1] := n; 0(t[(n - 3) + 2] + (n <= 5)) }\n',
+            'val a = 1;\nproc main() is a := 2\n', 'val a = b;\nval b = 1;\nproc main() is 0(a)\n', 'array t[b];\nval b = 3;\nproc main() is 0(0)\n',
+            'var g;\nval v = g;\nproc main() is 0(0)\n', 'proc main() is val a = e; val e = 0; e(1)\n', 'val b = ~true;\nval c = -(b);\nval d = (c = b) and (c >= b) or (c > 1);\nproc main() is 0(d)\n'.replace(' and (c >= b) or (c > 1)', ' and ((c >= b) or (c > 1))')]):
+        try:
+            items.append(('directed/err%d' % k, xparse.parse(src.encode('latin-1')), [[]]))
+        except Exception as ex:
+            ck.log('directed tie source %d does not parse with xparse: %s' % (k, ex))
     for f in sorted(glob.glob(os.path.join(vlib.REPO, 'tests', 'x', '*.x'))):
         try:
             items.append(('tests/x/' + os.path.basename(f), xparse.parse(open(f, 'rb').read()), [[49, 50]]))
